@@ -3,7 +3,7 @@
 also `keys()` and `clean()` — for every history, provided the path scheme is injective and prefix-free on the
 keys in use (`PathsOK`) **and the cache path does not start with `/`** (`to_path` strips one leading slash,
 `keys()` / `clean()` compare store keys with the unstripped `path + "/"`: with such a path `keys()` is empty
-and `clean()` removes nothing — `Props/C13.lean`, `storec_refines_statement_false`).
+and `clean()` removes nothing — `Props/C13.lean`, `storec_unnormalised_false`).
 
 The relation `RSt2` adds to `RSt`: the store holds no two bindings of one key, every *file* of the store is
 the entry of a key in use (directories are unconstrained: `keys()` skips them, `clean()` may leave them), the
